@@ -224,21 +224,21 @@ func (w *World) VersionFileProblem() string {
 const genHeader = "(* GENERATED by /verif/harness/cmd/translate from /repo's working tree - DO NOT EDIT.\n   Regenerated (write-if-changed) by every ./check run; see DESIGN.md 2.2 (T). *)\n"
 
 func coqStr(s string) string {
-	var sb strings.Builder
-	sb.WriteByte('"')
+	printable := true
 	for i := 0; i < len(s); i++ {
-		b := s[i]
-		switch {
-		case b == '"':
-			sb.WriteString(`""`)
-		case b >= 32 && b < 127:
-			sb.WriteByte(b)
-		default:
-			fmt.Fprintf(&sb, "\\x%02x", b)
+		if s[i] < 32 || s[i] >= 127 {
+			printable = false
 		}
 	}
-	sb.WriteByte('"')
-	return sb.String()
+	if !printable {
+		// Coq string literals have no escapes: build the string from its bytes
+		xs := make([]string, len(s))
+		for i := 0; i < len(s); i++ {
+			xs[i] = strconv.Itoa(int(s[i]))
+		}
+		return "(string_of_list_ascii (List.map Ascii.ascii_of_N [" + strings.Join(xs, "; ") + "]%N))"
+	}
+	return `"` + strings.ReplaceAll(s, `"`, `""`) + `"`
 }
 
 func coqZ(z *big.Int) string {
@@ -466,6 +466,19 @@ Record contract_abi := { ca_name : string; ca_fresh : abi; ca_committed : abi;
 	return sb.String()
 }
 
+func coqExpr(e *Expr) string {
+	switch e.Op {
+	case "var":
+		return "TVar " + coqStr(e.Name)
+	case "len":
+		return "TLen " + coqStr(e.Name)
+	case "const":
+		return "TC " + coqZ(e.Val)
+	}
+	op := map[string]string{"+": "TAdd", "-": "TSub", "*": "TMul", "/": "TDiv"}[e.Op]
+	return op + " (" + coqExpr(e.L) + ") (" + coqExpr(e.R) + ")"
+}
+
 // ParamsV prints Gen/Params.v.
 func (w *World) ParamsV() string {
 	p := w.Params
@@ -474,7 +487,10 @@ func (w *World) ParamsV() string {
 	sb.WriteString(`(* Constants of the Go sources, read from the type-checked packages ./common/... and
    ./contracts/... (go/packages + go/constant): every package-level constant is
    p_<package>_<name>, a function-local one p_<package>_<function>_<name>; integer
-   constants are Z, strings string, booleans bool.  Then the VERSION file, the
+   constants are Z, strings string, booleans bool; a []byte variable whose initialiser
+   is constant ([]byte{..} or []byte("..")) is a list Z of its bytes; the defining
+   expressions of the thresholds and GAS shares are p_<package>_<function>_<name>_expr
+   (texpr trees).  Packages: ./common/..., ./contracts/..., ./deploy.  Then the VERSION file, the
    deployment order lists of contracts/contracts.go, the contract directories, the
    deployment dependency edges found on the static call graph from each _deploy
    (common.ResolveFSContract / ResolveFSContractWithNNS with a constant name,
@@ -482,6 +498,12 @@ func (w *World) ParamsV() string {
 From Coq Require Import ZArith List String.
 Import ListNotations.
 Local Open Scope string_scope.
+
+(* Integer expressions of the source whose shape matters (vote thresholds, multisig
+   sizes, GAS shares), as trees: [TVar x] a variable, [TLen x] len(x), [TC z] a constant. *)
+Inductive texpr : Set :=
+| TVar (x : string) | TLen (x : string) | TC (z : Z)
+| TAdd (a b : texpr) | TSub (a b : texpr) | TMul (a b : texpr) | TDiv (a b : texpr).
 
 `)
 	for _, c := range p.Consts {
@@ -492,7 +514,21 @@ Local Open Scope string_scope.
 			fmt.Fprintf(&sb, "Definition %s : string := %s. (* %s *)\n", c.CoqName(), coqStr(c.Str), c.Where)
 		case "bool":
 			fmt.Fprintf(&sb, "Definition %s : bool := %s. (* %s *)\n", c.CoqName(), coqBool(c.Bool), c.Where)
+		case "bytes":
+			xs := make([]string, len(c.Bytes))
+			for i, b := range c.Bytes {
+				xs[i] = strconv.Itoa(int(b))
+			}
+			lit := "[]"
+			if len(xs) > 0 {
+				lit = "[" + strings.Join(xs, "; ") + "]%Z"
+			}
+			fmt.Fprintf(&sb, "Definition %s : list Z := %s. (* %s *)\n", c.CoqName(), lit, c.Where)
 		}
+	}
+	sb.WriteString("\n")
+	for _, e := range p.Exprs {
+		fmt.Fprintf(&sb, "Definition %s : texpr := %s. (* %s  at %s *)\n", e.CoqName(), coqExpr(e.E), strings.ReplaceAll(e.Src, "*)", "* )"), e.Where)
 	}
 	sb.WriteString("\n")
 	fmt.Fprintf(&sb, "Definition p_version_file : string := %s. (* VERSION, trailing newline removed *)\n", coqStr(p.VersionFile))
